@@ -18,7 +18,7 @@ func init() {
 			"(R2) ActorOf returns without registration or tell when construction fails, without tell on a name conflict, and otherwise registers, records the child and tells OnLaunch before any other message to the child; " +
 			"(R3) the construction chain runs prelaunch before the mailbox and behaviour are installed and a failing step aborts construction; (R4) the restart success path replaces the actor through the provider, resets the behaviour stack to that actor's OnReceive, sets running before telling OnLaunch and resuming, and never touches registration, ref or mailbox; " +
 			"(R5) no behaviour invocation is reachable for a killed non-zombie actor (guard truth table, shared with C03); (R6) the kill chain's partial order and OnKill-before-own-OnKilled in the kill routine. " +
-			"NOT decided: the complete per-actor delivery order at run time.",
+			"(R2, addition) every event published by ActorOf after the registration is dominated by the OnLaunch tell: a subscriber reacting to the spawn announcement finds OnLaunch already queued. NOT decided: the complete per-actor delivery order at run time.",
 		Assumptions: []string{"chain steps are exactly the appended functions (chain idiom)"},
 		Rules: []Rule{
 			{ID: "C05.R1", Min: 2, Desc: "OnLaunch addressing", Fn: c05Launch},
